@@ -107,6 +107,15 @@ CHECKS += [
     },
 ]
 
+CHECKS += [
+    {
+        "property_id": "C07", "engine": "symx", "category": "model_checking",
+        "technique": "probabilistic symbolic execution of the real sampling code: RNG calls are nondeterministic stubs with exact measures, all decision vectors are enumerated and their measures summed as polynomials in (efficiency, p_dark); z3 decides regime forks and residual identities; same-seed reproducibility as a two-run relational obligation",
+        "text": "For all efficiency and p_dark in [0,1] and both detector modes: the implemented detector law (sum of path measures of _get_output) equals thinning per photon, then at most one dark count per mode, then thresholding, for every input within the bound; sample_N_inputs draws N from the distribution and the law of its accepted outputs equals the detected, heralded, post-selected law with herald modes removed; sample_N_outputs draws exactly N from the renormalised conditional distribution and refuses dark counts; sample() returns each state with its probability; with the same seed no consumed randomness lies outside the seeded generators. Known finding: Sampler.sample() does not apply heralds.",
+        "design_ref": "DESIGN.md section 4 C07", "note": SYMX_NOTE + " The RNG libraries are trusted (A-EXT); convergence of empirical frequencies is replaced by equality of the generating law.",
+    },
+]
+
 _TODO = "check not built yet in this round; see DESIGN.md section 4 for the plan"
 NOT_APPLICABLE = [
     {"property_id": f"C{i:02d}", "reason": _TODO} for i in range(2, 20) if f"C{i:02d}" not in {c["property_id"] for c in CHECKS}
